@@ -2,7 +2,8 @@
    Usage: server_run trace | pubs | pubs_old | loc ; stdin = one case per line; stdout = one result line per case.
 
    trace   OLD|ITEMS|EVENTS
-             OLD     0 = protocol after fix 0d12b07 (script_of), 1 = before (script_old)
+             OLD     bit 0: 0 = protocol after fix 0d12b07 (script_of), 1 = before (script_old);
+                     bit 1 (value 2): the trace contains the optional hook task.snapshot_drop (observed WDrop)
              ITEMS   what the main loop handled, in order:  N:<k>:<npubs>  (notification; k inner salsa writes)
                      R:<kind>  kind = hover completion documentSymbol foldingRange inlayHint
                                       definition+ definition- references+ references- documentLink+ documentLink-
@@ -63,7 +64,7 @@ let mev_of = function
 
 let wev_of = function
   | "start" -> EStart | "end" -> EEnd | "vfs_acquired" -> EVfsAcquired
-  | "published_files.lock" -> EPublishedLock
+  | "published_files.lock" -> EPublishedLock | "snapshot_drop" -> ESnapshotDrop
   | "vfs_read.file_pos" -> EVfsRead SFilePos | "vfs_read.file" -> EVfsRead SFile
   | "vfs_read.file_range" -> EVfsRead SFileRange | "vfs_read.definition" -> EVfsRead SDefinition
   | "vfs_read.references" -> EVfsRead SReferences | "vfs_read.document_link" -> EVfsRead SDocumentLink
@@ -83,7 +84,8 @@ let reason_str = function
 let cmd_trace (line : ostring) : ostring =
   match split '|' line with
   | [old; items; evs] ->
-    let (st, v) = check_trace (ios old = 1) (List.map item_of (words items)) (List.map ev_of (words evs)) in
+    let flags = ios old in
+    let (st, v) = check_trace (flags land 1 = 1) (flags land 2 = 2) (List.map item_of (words items)) (List.map ev_of (words evs)) in
     let s = if st then "static=1" else "static=0" in
     (match v with
      | Accepted f -> Printf.sprintf "%s accepted final=%d" s (if f then 1 else 0)
